@@ -41,7 +41,13 @@ def case_strategy(draw):
     else:
         raise RuntimeError("no generic conformation")
     conf = "generic"
-    if draw(st.integers(0, 3)) == 0:
+    tiny = draw(st.integers(0, 4)) == 0 and gen.min_anchor_sine(rpos, edges) >= 1e-2      # (well-conditioned frames only)
+    if tiny:
+        # almost a pure translation of the construction conformation: a shift of some nm plus independent
+        # displacements of 1e-8 .. 1e-4 nm per atom (a shortcut for 'translated replicas' must not swallow them)
+        new = rpos + rng.uniform(-20, 20, 3) + rng.normal(0, 10.0 ** rng.uniform(-8, -4), (n, 3))
+        conf = "nearly-translated"
+    if not tiny and draw(st.integers(0, 3)) == 0:
         # one anchor of the NEW conformation exactly collinear with its frame neighbours (lattice line)
         triples = gen.anchor_triples(n, edges)
         for _ in range(50):
@@ -66,7 +72,7 @@ def case_strategy(draw):
         ks = list(range(n))
     else:
         ks = sorted(set(int(v) for v in rng.integers(0, n, 3)))
-    disp = rng.uniform(-0.5, 0.5, (len(ks), 3))
+    disp = rng.uniform(-0.5, 0.5, (len(ks), 3)) * (10.0 ** rng.uniform(-6, -3) if tiny or draw(st.integers(0, 5)) == 0 else 1.0)
     base.update({"new": new.tolist(), "ks": ks, "disp": disp.tolist(),
                  "how": draw(st.sampled_from(["fresh", "fresh", "inplace"])), "prior_seed": draw(st.integers(0, 2 ** 31)),
                  "rescale": draw(st.sampled_from([None, None, None, None, 0.25, 0.8, 1.0, 1.9]))})
